@@ -350,7 +350,7 @@ class ATTLayer(Layer):
             )
         else:
             self.send('gatt', GattReadBlobResponse(
-                    None
+                    b''
                 )
             )
 
